@@ -85,6 +85,7 @@ class Extractor:
         self.track_takes = False
         self.track_stores = False
         self.track_ext = False
+        self.track_local_muts = False
         self.order = []          # read call result SVs in path order (DFS stack discipline)
         self.read_sites = [(self.body.key, bi) for bi, t in self.body.calls() if callee_name(t) in READ_CALLS or callee_name(t) == "std::io::Read::read"]
         self.follow = follow or (lambda callee_body, t: True)
@@ -270,6 +271,9 @@ class Extractor:
                 if root[0] == "P" and is_param_load(root[1], 1) and proj:
                     fld = ".".join(e[2] for e in proj if e[0] == "f")
                     toks.append(("mut", name.split("::")[-1] if not name.startswith("<") else name, fld, tuple(self.render_arg(S, x) for x in args[1:])))
+                elif root[0] == "L" and self.track_local_muts:
+                    nm = body.locals[root[1]]["name"] or "_%d" % root[1]
+                    toks.append(("mut", name.split("::")[-1] if not name.startswith("<") else name, "local:" + nm, tuple(self.render_arg(S, x) for x in args[1:])))
         if self.mode == "w":
             if name in WRITE_CALLS and args and self.sink_pred(it, S, args[0], it.op_type(t["args"][0])):
                 w, n = WRITE_CALLS[name]
@@ -369,7 +373,7 @@ class Extractor:
 def render_value(prog, v, depth=0, names=None):
     """human-readable constructor term: Amf0Value::Boolean(1), Ok(Some(..)), constants as numbers;
     values read from the source are named #k by their position on the path"""
-    if depth > 5 or not isinstance(v, tuple):
+    if depth > 9 or not isinstance(v, tuple):
         return "?"
     if names and v in names:
         return names[v]
